@@ -207,20 +207,23 @@ def run(ctx: Context) -> None:
               construct='other dataset reads: ' + (', '.join(sorted({norm_text(n) for n in other_reads})) or 'none'))
 
     # ---- R16.3 inventory completeness
-    from ..handles import inventory_obligations
-    inventory_obligations(ctx, 'R16.3')
+    with ctx.section('R16.3 inventory completeness'):
+        from ..handles import inventory_obligations
+        inventory_obligations(ctx, 'R16.3')
 
     # ---- R16.4 canonical bytes
-    closure = cg.closure([(mk, None)] + [(fi, fi.cls) for fi in impls], stop=lambda f: not f.qualname.startswith('emsarray.'))
-    for g, gcls in closure:
-        if not (g.qualname.startswith(CACHE) or g in impls):
-            continue
-        for node, q, why in noncanonical_sources(g, lambda n, g=g: p.qualify(n, g)):
-            ctx.check('R16.4', False, "no non-canonical byte source reaches the hash", g, node,
-                      construct=f"{q}", detail=why)
-    if not any(o.rule == 'R16.4' for o in ctx.obligations):
-        ctx.check('R16.4', True, "no non-canonical byte source reaches the hash", mk, mk.node,
-                  construct=f"closure of make_cache_key ({len(closure)} functions): none of the catalogued sources")
+    with ctx.section('R16.4 canonical bytes'):
+        closure = cg.closure([(mk, None)] + [(fi, fi.cls) for fi in impls], stop=lambda f: not f.qualname.startswith('emsarray.'))
+        for g, gcls in closure:
+            if not (g.qualname.startswith(CACHE) or g in impls):
+                continue
+            for node, q, why in noncanonical_sources(g, lambda n, g=g: p.qualify(n, g)):
+                ctx.check('R16.4', False, "no non-canonical byte source reaches the hash", g, node,
+                          construct=f"{q}", detail=why)
+        if not any(o.rule == 'R16.4' for o in ctx.obligations):
+            ctx.check('R16.4', True, "no non-canonical byte source reaches the hash", mk, mk.node,
+                      construct=f"closure of make_cache_key ({len(closure)} functions): none of the catalogued sources")
+
 
 
 # --------------------------------------------------------------------------- checker self-test
